@@ -6,6 +6,18 @@ PROPS = ["C%02d" % i for i in range(1, 20)]
 
 # property -> (technique, level text, design ref)
 CLAIMS = {
+ "C01": ("control-dependence (edge-dominance) of match acceptance and whole-file-op detection, value provenance of the short-size class, cyclic must-pass-through framing rules on the writer loops, set agreement of emitted vs handled op/series kinds, codec pairing (go/ssa)",
+         "Decides structural necessary conditions, not the behaviour: a block matches only under non-empty window, equal short-size class (taken from the final short read) and strong-hash equality; whole-file ops are recognised only under equal sizes, full span and BLOCK_RANGE; every file's series is opened by a SyncHeader and closed by HEY_YOU_DID_IT on every path of WritePatch and Optimize (BsdiffHeader before a bsdiff series, unmapped ops copied verbatim); emitted op and series kinds are handled by the patcher; the fresh bowl prepares its folder; compressors/decompressors pair up. The rolling search, replay arithmetic and tree equality are NOT decided.",
+         "DESIGN.md 4 (C01)"),
+ "C08": ("exactly-one-update path counting, callee identity agreement (same hash functions on both sides), phi/control-dependence shape of the rolling/skip flags, loop-exhaustion edge dominance (go/ssa)",
+         "Decides structural necessary conditions of 'equal content costs no fresh bytes' and 'reused + fresh = size', not the numbers: every op written is counted exactly once; differ and signer use the same weak and strong hash functions; the rolling state is reset after a match and the lookup skipped only while rolling; the library holds every hash and the matcher gives up only after searching the whole bucket. Byte counts, the per-edit bound and the rolling-update arithmetic are NOT decided.",
+         "DESIGN.md 4 (C08)"),
+ "C11": ("value provenance of block-range fields, control-dependence of the range merge, pending-flush path rules (incl. deferred closures), who-is-called confinement to the cleaner, literal-shape bound rule for data payloads (go/ssa)",
+         "Decides structural necessary conditions, not the behaviour: block ranges are built from the matched library block with span 1 and merged only under same-file contiguity; the pending range is flushed before data ops and on every return; every op leaves through the cleaner, which drops only empty non-leading data ops; every data payload is bounded by MaxDataOp by construction; empty windows never match. Replay equality and the exhaustive small-alphabet enumeration are NOT decided (dynamic family).",
+         "DESIGN.md 4 (C11)"),
+ "C14": ("emit/advance pairing path rules, flush-before-marker ordering with error gating, control dependence on the resume offset, set agreement of emitted vs applied op types, bound-by-read-count guard rule (go/ssa)",
+         "Decides structural necessary conditions, not the behaviour: overlay ops are written only by fresh/skip/Finalize and each advances readOffset by its extent; Finalize flushes (checked) before the end marker; magic/header only at offset 0 with seeded counters; the applier handles every emitted op type and succeeds only at the marker; the old-file window is inspected only below the count read; the committer truncates at the applier's final position. Window/skip index arithmetic is NOT decided.",
+         "DESIGN.md 4 (C14)"),
  "C03": ("set agreement over type-checked field accesses (saved vs restored checkpoint fields, per type and per Save/Resume implementation; gob registrations), literal-completeness, must-pass-through / error-gating path rules, constant flag checks, control-dependence provenance (go/ssa)",
          "Decides structural necessary conditions, not the behaviour: every checkpoint field is saved and restored (type level, and per Bowl/EntryWriter implementation: what its Save writes its own Resume reads); the literal handed to SaveConsumer.Save is complete; entry writers report an offset only after Flush and a checked fsync; reopening never truncates and repositions from the checkpoint (both offsets for the overlay writer); every successful series end finalizes the writer; work lists are de-duplicated by their owners; checkpoint payload types are gob-registered; checkpoints are requested inside the loops and offered. Agreement of the four state layers at every interruption point and content equality after resume are NOT decided.",
          "DESIGN.md 4 (C03)"),
